@@ -17,8 +17,14 @@ fn flight_sum(w: &World, denom: &str) -> u128 {
     w.ibc.flight.values().filter(|p| p.denom == denom).map(|p| p.amount).sum()
 }
 
+/// refundable transfers as the contract reports them (IbcQueue entries that failed or timed out)
+fn queue_refundable(s: &Sim) -> Vec<staking::state::ibc::IBCTransfer> {
+    use staking::state::ibc::PacketLifecycleStatus as PS;
+    s.w.ibc_queue().into_iter().filter(|p| matches!(p.status, PS::AckFailure | PS::TimedOut)).collect()
+}
+
 fn refundable_sum(s: &Sim, denom: &str) -> u128 {
-    s.refundable().filter(|p| p.denom == denom).map(|p| p.amount).sum()
+    queue_refundable(s).iter().filter(|p| p.amount.denom == denom).map(|p| p.amount.amount.u128()).sum()
 }
 
 /// in flight / refundable and destined to `receiver`
@@ -27,7 +33,7 @@ fn flight_to(w: &World, denom: &str, receiver: &str) -> u128 {
 }
 
 fn refundable_to(s: &Sim, denom: &str, receiver: &str) -> u128 {
-    s.refundable().filter(|p| p.denom == denom && p.receiver == receiver).map(|p| p.amount).sum()
+    queue_refundable(s).iter().filter(|p| p.amount.denom == denom && p.receiver == receiver).map(|p| p.amount.amount.u128()).sum()
 }
 
 /// Invariants evaluated on every distinct state.
@@ -557,8 +563,8 @@ pub fn step_monitors(props: &[&str], pre: &Sim, act: &Act, ap: &Applied, post: &
                     }
                 }
             }
-            if has(props, "C02") && ap.out.err.as_deref().map(|e| e.contains("insufficient funds")).unwrap_or(false) {
-                v.push(viol("C02", "withdraw.unpaid", format!("Withdraw({batch_id}) by {sender} was approved by the contract but the bank could not pay: {:?}", ap.out.err)));
+            if has(props, "C02") && ap.out.sub_errors.iter().any(|e| e.contains("insufficient funds")) {
+                v.push(viol("C02", "withdraw.unpaid", format!("Withdraw({batch_id}) by {sender} was approved by the contract but the bank could not pay: {:?}", ap.out.sub_errors)));
             }
         }
         ExecuteMsg::ReceiveRewards {} => {
@@ -655,8 +661,8 @@ pub fn step_monitors(props: &[&str], pre: &Sim, act: &Act, ap: &Applied, post: &
                     }
                 }
             }
-            if has(props, "C02") && ap.out.err.as_deref().map(|e| e.contains("insufficient funds")).unwrap_or(false) {
-                v.push(viol("C02", "fee_withdraw.unpaid", format!("FeeWithdraw approved by the contract but the bank could not pay: {:?}", ap.out.err)));
+            if has(props, "C02") && ap.out.sub_errors.iter().any(|e| e.contains("insufficient funds")) {
+                v.push(viol("C02", "fee_withdraw.unpaid", format!("FeeWithdraw approved by the contract but the bank could not pay: {:?}", ap.out.sub_errors)));
             }
         }
         ExecuteMsg::RecoverPendingIbcTransfers { selected_packets, receiver, .. } => {
@@ -714,14 +720,19 @@ pub fn step_monitors(props: &[&str], pre: &Sim, act: &Act, ap: &Applied, post: &
                         d.dedup();
                         d.len() == 1
                     };
+                    // the contract approved a recovery (it emitted a transfer that the chain then refused)
+                    // although the selection mixes denoms or is empty: it must refuse such a recovery itself
+                    if selected_packets.is_none() && !ap.out.sub_errors.is_empty() && pre.w.ibc.up && pre.w.ibc.reply_fault == 0 && (!single || pk.is_empty()) {
+                        v.push(viol("C07", "recover.mixed_denoms", format!("recovery of {:?} for {recv} was approved by the contract (then failed in the chain: {:?}) although it is not a single-denom refundable set", sel, ap.out.sub_errors)));
+                    }
                     let recv_ok = bech::decode(&recv).map(|d| d.hrp == pre_cfg.native_chain_config.account_address_prefix).unwrap_or(false);
                     if selected_packets.is_none() && !pk.is_empty() && single && pre.w.ibc.up && recv_ok && pre.w.ibc.reply_fault == 0 {
                         v.push(viol("C07", "recover.refused_wrongly", format!("recovery of refundable {:?} for {recv} refused: {:?}", sel, ap.out.err)));
                     }
                 }
             }
-            if has(props, "C02") && ap.out.err.as_deref().map(|e| e.contains("insufficient funds")).unwrap_or(false) && selected_packets.is_none() {
-                v.push(viol("C02", "recover.unpaid", format!("recovery approved by the contract but the bank could not pay: {:?}", ap.out.err)));
+            if has(props, "C02") && ap.out.sub_errors.iter().any(|e| e.contains("insufficient funds")) && selected_packets.is_none() {
+                v.push(viol("C02", "recover.unpaid", format!("recovery approved by the contract but the bank could not pay: {:?}", ap.out.sub_errors)));
             }
         }
         _ => {}
